@@ -134,9 +134,44 @@ func (f *Frame) onStack(fn *ssa.Function) bool {
 	return false
 }
 
+// callSiteClauses: the obligations the enclosing function's contract attaches to its calls of callee
+func (f *Frame) callSiteClauses(b *ssa.BasicBlock, in *ssa.Call, callee *ssa.Function, args []Val, st *State, g string) {
+	if f.callerF != nil || in == nil {
+		return
+	}
+	sp := f.specOf(f.fn)
+	if sp == nil || len(sp.CallSites) == 0 {
+		return
+	}
+	for _, cs := range sp.CallSites {
+		if cs.Callee != funcDisplay(callee) {
+			continue
+		}
+		cs.Seen = true
+		if f.e.property != "" && !hasTag(cs.Clause.Tags, f.e.property) {
+			continue
+		}
+		var own []Val
+		for _, p := range f.fn.Params {
+			own = append(own, f.vals[p])
+		}
+		ctx := f.ctxFor(f.fn, own, nil, st, f.entry, g)
+		ctx.lookup = func(name string) (SV, bool) { return f.resolveLocal(name, b, st, nil) }
+		ctx.callArgs = map[string]SV{}
+		for i, p := range callee.Params {
+			if i < len(args) {
+				ctx.callArgs[p.Name()] = f.e.svOfVal(args[i], p.Type())
+			}
+		}
+		t := ctx.eval(cs.Clause.Expr).T
+		f.oblige("callsite", f.oblName(fmt.Sprintf("%s:callsite@%s#%d.%d", funcDisplay(f.fn), funcDisplay(callee), f.callSiteN("cs:"+funcDisplay(callee)+fmt.Sprint(cs.Clause.Ord)), cs.Clause.Ord)), g, t, cs.Clause.Src, cs.Clause.Tags, posOf(in))
+	}
+}
+
 func (f *Frame) callStatic(b *ssa.BasicBlock, in *ssa.Call, callee *ssa.Function, args []Val, binds []Val, st *State, g string, rs *types.Tuple) Val {
 	e := f.e
 	full := callee.String()
+	f.callSiteClauses(b, in, callee, args, st, g)
 	if e.nopanic && in != nil && !in.Call.IsInvoke() && callee.Signature.Recv() != nil && len(args) > 0 && args[0].LV == nil && inModule(callee) {
 		if _, isPtr := callee.Signature.Recv().Type().Underlying().(*types.Pointer); isPtr {
 			f.safety(b, "nilrecv", in, not(eq(args[0].T, "0")))
@@ -182,7 +217,7 @@ func (f *Frame) callStatic(b *ssa.BasicBlock, in *ssa.Call, callee *ssa.Function
 		return f.resultVal(sanitize(callee.Name()), rs)
 	}
 	sp := f.specOf(callee)
-	if e.callPolicy == "shallow" && callee.Blocks != nil && inModule(callee) && !(sp != nil && sp.Inline) {
+	if (e.callPolicy == "shallow" || (e.callPolicy == "contracts" && sp == nil)) && callee.Blocks != nil && inModule(callee) && !(sp != nil && sp.Inline) {
 		// opaque call: its may-write set is havoced, the result is unconstrained (sound over-approximation)
 		e.funcsUsed[funcFull(callee)] = "opaque (may-write set havoced)"
 		for _, h := range e.mayWriteNames(callee) {
